@@ -406,8 +406,10 @@ def rand_v2(rng, nexp, nbits_of_exp, w, tier, min_qpd=0, odd_shots=False):
     for e in range(nexp):
         nb = nbits_of_exp(e)
         if odd_shots:
-            shots = int(rng.choice([3, 5, 6, 7, 10, 12, 100]))
-            if rng.integers(0, 25) == 0 and nexp <= 6:
+            shots = int(rng.choice([3, 5, 6, 7, 10, 12]))
+            if rng.integers(0, 12) == 0:
+                shots = 100
+            if tier != "quick" and rng.integers(0, 25) == 0 and nexp <= 6:
                 shots = 1000
         else:
             shots = 1 << int(rng.integers(0, 5 if tier == "quick" else 7))
@@ -663,7 +665,7 @@ def generate(rng, tier, outdir):
     n_bad = 150 if quick else 1500
     n_keys = 600 if quick else 6000
     n_proc = 400 if quick else 5000
-    n_tol = 40 if quick else 500
+    n_tol = 16 if quick else 400
 
     # ---- valid stream (+ V1 twins of every case that contains V2 data) ----
     valid_specs = []
